@@ -91,9 +91,37 @@ def r1_coordinates(repo, report):
               why=bad[0] if bad else "")
     # the one-length matcher: installed only for one length; a hit implies len(affix) == _length
     c, init = repo.need_method("AdapterIndex", "__init__")
-    ifs = [n for n in ast.walk(init) if isinstance(n, ast.If) and "self.match_to" in src(n)]
-    ok = len(ifs) == 1 and src(ifs[0].test) == "len(self._lengths) == 1" and "self.match_to = self._match_to_one_length" in src(ifs[0].body[-1]) and "self._length = self._lengths[0]" in [src(x) for x in ifs[0].body] and "self.match_to = self._match_to_multiple_lengths" in src(ifs[0].orelse[-1])
-    report.ob("C08.R1", "one-length matcher installed iff there is exactly one length", ok, facts={"if": src(ifs[0])[:200] if ifs else None}, expected="len(self._lengths) == 1 -> _match_to_one_length with self._length = self._lengths[0]; else _match_to_multiple_lengths", loc=repo.loc(init))
+    ips = params(init)
+
+    def init_hook(ex, node, env):
+        cn = chain(node.func)
+        if cn == "self._make_index":
+            return Tup([Obj("LENGTHS", nonnull=True), Obj("INDEX", nonnull=True), Obj("AMBIG")])
+        if cn == "self._accept" or (cn and cn.startswith("logger.")):
+            return Const(None)
+        return None
+
+    irows = explore(repo, strip_docstring(init.body), {"self": Obj("self", nonnull=True), ips[1]: Obj("ADAPTERS"), ips[2]: Obj("PREFIX")}, call_hook=init_hook, inline=False)
+    bad = []
+    n_inst = 0
+    for r in irows:
+        if r.exit[0] == "raise":
+            continue
+        st = {e[1]: e[2] for e in r.effects if e[0] == "store"}
+        one_len = r.valuation.get("sign:len(LENGTHS)-1")
+        if one_len is None:
+            bad.append(("the matcher is installed without looking at the number of lengths", st.get("self.match_to")))
+            continue
+        n_inst += 1
+        want = "self._match_to_one_length" if one_len == 0 else "self._match_to_multiple_lengths"
+        if st.get("self.match_to") != want:
+            bad.append((f"len(lengths) {'=' if one_len == 0 else '!='} 1", st.get("self.match_to")))
+        if one_len == 0 and st.get("self._length") != "LENGTHS[0]":
+            bad.append(("the single length is not recorded", st.get("self._length")))
+        if st.get("self._lengths") != "LENGTHS" or st.get("self._index") != "INDEX":
+            bad.append(("lengths / index are not what _make_index returned", st.get("self._lengths"), st.get("self._index")))
+    report.ob("C08.R1", "one-length matcher installed iff there is exactly one length", not bad and n_inst >= 2, facts={"paths": len(irows), "problems": [str(b)[:200] for b in bad[:2]]},
+              expected="len(self._lengths) == 1 -> _match_to_one_length with self._length = self._lengths[0]; else _match_to_multiple_lengths", loc=repo.loc(init), cases=len(irows))
     c, one = repo.need_method("AdapterIndex", "_match_to_one_length")
     ops = params(one)
 
@@ -143,9 +171,22 @@ def r1_coordinates(repo, report):
     r1 = [src(n.value) for n in ast.walk(mp) if isinstance(n, ast.Return)]
     r2 = [src(n.value) for n in ast.walk(ms) if isinstance(n, ast.Return)]
     report.ob("C08.R1", "affix helpers", r1 == ["s[:n]"] and r2 == ["s[-n:]"], facts={"prefix": r1, "suffix": r2}, expected="s[:n] / s[-n:]", loc=repo.loc(mp))
-    inst = [n for n in ast.walk(init) if isinstance(n, ast.If) and src(n.test) == "prefix"]
-    ok = len(inst) == 1 and [src(x) for x in inst[0].body] == ["self._make_affix = self._make_prefix", "self._make_match = self._make_prefix_match"] and [src(x) for x in inst[0].orelse] == ["self._make_affix = self._make_suffix", "self._make_match = self._make_suffix_match"]
-    report.ob("C08.R1", "prefix index uses prefix helpers, suffix index suffix helpers", ok, facts={"if": src(inst[0])[:260] if inst else None}, expected="prefix: (_make_prefix, _make_prefix_match); else (_make_suffix, _make_suffix_match)", loc=repo.loc(init))
+    bad = []
+    n_inst = 0
+    for r in irows:
+        if r.exit[0] == "raise":
+            continue
+        st = {e[1]: e[2] for e in r.effects if e[0] == "store"}
+        pf = r.valuation.get("truthy:PREFIX")
+        if pf is None:
+            bad.append(("helpers installed without looking at the prefix flag", st.get("self._make_affix")))
+            continue
+        n_inst += 1
+        want = ("self._make_prefix", "self._make_prefix_match") if pf else ("self._make_suffix", "self._make_suffix_match")
+        if (st.get("self._make_affix"), st.get("self._make_match")) != want:
+            bad.append((f"prefix={pf}", st.get("self._make_affix"), st.get("self._make_match")))
+    report.ob("C08.R1", "prefix index uses prefix helpers, suffix index suffix helpers", not bad and n_inst >= 2, facts={"paths": len(irows), "problems": [str(b)[:200] for b in bad[:2]]},
+              expected="prefix: (_make_prefix, _make_prefix_match); else (_make_suffix, _make_suffix_match)", loc=repo.loc(init), cases=len(irows))
     ipa = repo.cls("IndexedPrefixAdapters").methods["__init__"]
     isa = repo.cls("IndexedSuffixAdapters").methods["__init__"]
     ok = "AdapterIndex(adapters, prefix=True)" in src(ipa) and "AdapterIndex(adapters, prefix=False)" in src(isa)
